@@ -160,7 +160,11 @@ pub fn do_step_ex(rig: &ServerRig, step: &Value, rng: &mut Rng) -> (Value, Vec<(
             _ => None,
         };
         s.inflight = (rng.u64_edge(), rng.u64_edge(), 1 + rng.below(65535) as u16, 1 + rng.below(65535) as u16);
-        s.vring_base = rng.below(65536) as u32;
+        s.vring_base = match rng.below(3) {
+            0 => rng.below(65536) as u32,
+            1 => *rng.pick(&[0x10000u32, 0x8000_0000, 0xffff_ffff, 0x7fff_7fff]),
+            _ => rng.next() as u32,
+        };
         s.queue_num = rng.u64_edge();
         s.max_mem_slots = rng.u64_edge();
         s.config_fill = rng.next() as u8;
@@ -183,7 +187,32 @@ pub fn do_step_ex(rig: &ServerRig, step: &Value, rng: &mut Rng) -> (Value, Vec<(
     let fdseg: usize = step["fdseg"].as_u64().unwrap_or(0) as usize;
     let mut sent_ok = true;
     let res;
-    if seg.is_empty() && cut < 0 {
+    let reset = step["reset"].as_bool().unwrap_or(false);
+    if reset && cut >= 0 {
+        // the peer goes away abruptly: an answered request whose reply it never reads, then `cut` bytes of this request, then
+        // its socket is closed with the reply still unread -- the kernel reports a connection reset to the server, not an
+        // orderly end of stream
+        let mut g = Vec::new();
+        g.extend_from_slice(&1u32.to_le_bytes());
+        g.extend_from_slice(&1u32.to_le_bytes());
+        g.extend_from_slice(&0u32.to_le_bytes());
+        sent_ok = raw_send_all(&rig.peer, &g, &[]).is_ok();
+        let first = rig.serve_once(3000);
+        rig.core.s.lock().unwrap().calls.clear();
+        rig.start_serve();
+        let end = (cut as usize).min(bytes.len());
+        if end > 0 {
+            sent_ok &= raw_send_all(&rig.peer, &bytes[..end], &[]).is_ok();
+            rig.wait_drained(1000);
+        }
+        // close the peer's socket while keeping its descriptor number valid: /dev/null is put in its place
+        if let Ok(null) = std::fs::File::open("/dev/null") {
+            // SAFETY: dup2 onto a descriptor this rig owns; the socket behind it is closed by the kernel.
+            unsafe { libc::dup2(null.as_raw_fd(), rig.peer.as_raw_fd()) };
+        }
+        let r = rig.wait_result(3000);
+        res = if first == "ok" { r } else { format!("setup:{first}") };
+    } else if seg.is_empty() && cut < 0 {
         sent_ok = raw_send_all(&rig.peer, &bytes, &fds).is_ok();
         res = rig.serve_once(3000);
     } else {
@@ -193,9 +222,13 @@ pub fn do_step_ex(rig: &ServerRig, step: &Value, rng: &mut Rng) -> (Value, Vec<(
         let mut bounds: Vec<usize> = seg.iter().cloned().filter(|x| *x < end).collect();
         bounds.push(end);
         let mut from = 0;
+        // "fdall": every piece of the message carries descriptors of its own (as many as the first one)
+        let fdall = step["fdall"].as_bool().unwrap_or(false);
+        let extra_files: Vec<Vec<std::fs::File>> = if fdall { (0..bounds.len()).map(|_| (0..fds.len().max(1)).map(|_| memfd("piece", 0)).collect()).collect() } else { Vec::new() };
+        let extra_fds: Vec<Vec<i32>> = extra_files.iter().map(|v| v.iter().map(|f| f.as_raw_fd()).collect()).collect();
         for (i, to) in bounds.iter().enumerate() {
             if *to > from {
-                let f: &[i32] = if i == fdseg { &fds } else { &[] };
+                let f: &[i32] = if fdall && i > 0 { &extra_fds[i] } else if i == fdseg || fdall { &fds } else { &[] };
                 sent_ok &= raw_send_all(&rig.peer, &bytes[from..*to], f).is_ok();
                 rig.wait_drained(1000);
             }
@@ -222,7 +255,7 @@ pub fn do_step_ex(rig: &ServerRig, step: &Value, rng: &mut Rng) -> (Value, Vec<(
         "shape": step["shape"].as_str().unwrap_or(""),
         "flags": b.flags, "size": b.size, "blen": b.body.len(), "nfds": fds.len(), "fdids": fdids,
         "args": b.args, "hv": hv, "sent": sent_ok, "seg": seg, "cut": cut, "fdseg": fdseg, "mlen": bytes.len(),
-        "hang": res.starts_with("hang"), "res": res, "calls": calls, "ncalls": calls.len(),
+        "hang": res.starts_with("hang"), "res": res, "calls": calls, "ncalls": calls.len(), "reset": reset,
         "out": msgs, "nout": msgs.len(), "out_extra": extra, "leftover": leftover, "eof": eof,
     }), raw)
 }
